@@ -355,6 +355,19 @@ def overspend_rule(model, res):
     return n
 
 
+
+def uni_ledgers(res, model):
+    """Ledgers of the two Uniswap primitives that move value between wallet and position (also a premise of C03)."""
+    fx = ["subtract_from_balance", "add_to_balance", "_record_action"]
+    oq = ["base_unit_price_to_sqrt_price_x96", "close_position", "new_position", "tick_to_price",
+          "sqrt_price_x96_to_base_unit_price", "tick_to_sqrt_price_x96"]
+    effects_check(res, model, "UniLpMarket.__remove_liquidity", REF_REMOVE,
+                  "remove: default price from the status price; delta clamped to the held liquidity; amounts moved to pending", fx, opaque=oq)
+    effects_check(res, model, "UniLpMarket._add_liquidity_by_tick", REF_ADD,
+                  "add: default price from the status price; wallet debited by the USED amounts; position keyed by the ticks and "
+                  "updated IN PLACE when it exists (its other fields, e.g. the lent flag, stay)", fx, opaque=oq)
+
+
 def run(model, tier="quick"):
     res = Result("C07", EXPLANATION)
     res.rules = ["R-FORMULA", "R-SIB", "R-SIGN", "R-PAIR"]
@@ -364,13 +377,7 @@ def run(model, tier="quick"):
         nm = q.split(".")[-1]
         formula_check(res, model, q, src, what, opaque=[x for x in opq if x != nm] if nm in ("get_liquidity", "get_amounts", "new_position", "get_token_amounts", "close_position") else [])
     res.floor("price_to_sqrt_call_sites", sqrt_siblings(model, res), 4)
-    fx = ["subtract_from_balance", "add_to_balance", "_record_action"]
-    oq = ["base_unit_price_to_sqrt_price_x96", "close_position", "new_position", "tick_to_price",
-          "sqrt_price_x96_to_base_unit_price", "tick_to_sqrt_price_x96"]
-    effects_check(res, model, "UniLpMarket.__remove_liquidity", REF_REMOVE,
-                  "remove: default price from the status price; delta clamped to the held liquidity; amounts moved to pending", fx, opaque=oq)
-    effects_check(res, model, "UniLpMarket._add_liquidity_by_tick", REF_ADD,
-                  "add: default price from the status price; wallet debited by the USED amounts; position keyed by the ticks", fx, opaque=oq)
+    uni_ledgers(res, model)
     # the market-level add path: explicit amounts (also an explicit ZERO) are what is offered; None alone means the balance
     from . import uni_refs as _U
     from .C09 import FX as _FX, OPQ as _OPQ
